@@ -13,6 +13,7 @@ import (
 	"sort"
 	"strings"
 	"sync"
+	"sync/atomic"
 	"time"
 )
 
@@ -286,4 +287,41 @@ func (r *Run) Finish() int {
 		return 1
 	}
 	return 0
+}
+
+// ---- termination watchdog -------------------------------------------------------------------
+
+var (
+	beatCount int64
+	beatInput atomic.Value
+)
+
+// Beat records that an execution on input w is starting (cheap; used by the watchdog).
+func Beat(w []byte) {
+	atomic.AddInt64(&beatCount, 1)
+	beatInput.Store(w)
+}
+
+// StartWatchdog reports a violation and exits 1 if no execution completes for `limit`: a single
+// tiny execution that runs that long does not terminate for practical purposes. Exploration
+// budgets are not wall-clock oracles; this only fires when one call hangs.
+func (r *Run) StartWatchdog(limit time.Duration) {
+	go func() {
+		last := int64(-1)
+		var since time.Time
+		for {
+			time.Sleep(5 * time.Second)
+			c := atomic.LoadInt64(&beatCount)
+			if c != last {
+				last = c
+				since = time.Now()
+				continue
+			}
+			if c > 0 && time.Since(since) > limit {
+				w, _ := beatInput.Load().([]byte)
+				r.Violation(Replay{Engine: "watchdog", Entry: "(see input)", Sig: "non-termination", InputB64: append([]byte(nil), w...), Expected: "returns", Got: fmt.Sprintf("one execution still running after %v", limit)})
+				os.Exit(r.Finish())
+			}
+		}
+	}()
 }
